@@ -529,6 +529,33 @@ func runOracle(cf *hxlib.CommonFlags, o *hxlib.Out) {
 
 	or.tsOps()
 
+	// first pass: one fresh compilation of every program; programs whose
+	// compilation exceeds the tier's budget are dropped (counted)
+	budget := int64(700)
+	if !quick {
+		budget = 12000
+	}
+	{
+		var keep []*Job
+		var keepFirst []*Res
+		timings := map[string]int64{}
+		for _, j := range jobs {
+			r := compileFresh(j)
+			o.Count("compilations")
+			timings[j.Name] = r.Ms
+			if r.Ms > budget {
+				o.Count("corpus_dropped_over_budget")
+				continue
+			}
+			keep = append(keep, j)
+			keepFirst = append(keepFirst, r)
+		}
+		jobs = keep
+		o.Meta["first_compile_ms"] = timings
+		o.Meta["programs"] = len(jobs)
+		_ = keepFirst
+	}
+
 	// (iii) children run concurrently with the in-process work
 	var childRes [][]*Res
 	var cwg sync.WaitGroup
@@ -551,7 +578,7 @@ func runOracle(cf *hxlib.CommonFlags, o *hxlib.Out) {
 			r := compileOn(c, p, j)
 			same = append(same, r)
 			o.Count("compilations")
-			if i == 0 && (r.Ms > 12000 || r.Err != "") {
+			if i == 0 && r.Err != "" {
 				break
 			}
 		}
